@@ -145,18 +145,19 @@ class Arm:
         return t == ("arg", self.param["seen"])
 
     def event_name_of(self, t):
-        """t == to_str(event.name()) for this arm's event (through `?`)"""
+        """t == decode(event.name())? exactly, for this arm's event"""
         b = self.body
-        for st in mir.subterms(strip(t, mir.VALUE_PRESERVING)):
-            if st[0] == "call" and st[1] == "quick_xml::events::BytesStart::name":
-                return self.is_event(st[2][0])
+
+        def exact(x):
+            src = decoded_source(b, x)
+            return src is not None and src[0] == "call" and src[1] == "quick_xml::events::BytesStart::name" and self.is_event(src[2][0])
+        if exact(t):
+            return True
         tt = strip(t, mir.VALUE_PRESERVING)
         if tt[0] == "local":
-            for d in b.defs().get(tt[1], []):
-                if d.si is not None and d.node["k"] == "assign" and d.node["rv"]["k"] == "use":
-                    t2 = term_of(b, d.node["rv"]["op"])
-                    if any(st[0] == "call" and st[1] == "quick_xml::events::BytesStart::name" and self.is_event(st[2][0]) for st in mir.subterms(t2)):
-                        return True
+            ds = b.defs().get(tt[1], [])
+            return bool(ds) and all(d.si is not None and d.node["k"] == "assign" and not d.node["place"]["p"] and d.node["rv"]["k"] == "use" and
+                                    exact(term_of(b, d.node["rv"]["op"])) for d in ds)
         return False
 
     def calls_to(self, path):
@@ -173,7 +174,7 @@ class Roles:
             self.problems.append("event loop not recognised")
             return
         self.el = self.ev.body
-        tps = [b for b in lib.real_bodies() if b.kind != "closure" and any(cname(c.node) == "quick_xml::events::BytesStart::attributes" for c in b.calls())]
+        tps = _find_tag_parsers(lib)
         if len(tps) != 1:
             self.problems.append("expected one tag parser (body reading BytesStart::attributes), found %d" % len(tps))
             return
@@ -215,7 +216,8 @@ class Roles:
         if len(both) != 1:
             self.problems.append("expected one demotion step called in both the Start and Empty arms, found %s" % sorted(both))
             return
-        self.ds = lib.bodies[next(iter(both))]
+        from .. import desugar
+        self.ds = desugar.desugar(lib, lib.bodies[next(iter(both))])
         # snapshot fn: local call in the Start arm, not in Empty, whose argument derives from get_child
         sn = []
         A = self.arm["Start"]
@@ -237,6 +239,27 @@ class Roles:
     @property
     def ok(self):
         return not self.problems
+
+
+def _find_tag_parsers(lib):
+    """bodies that read BytesStart::attributes, in normal form (private helpers inlined, closures/pipelines explicit);
+    a private helper inlined into another candidate is not a candidate itself"""
+    from .common import normal_form
+    ATTR = "quick_xml::events::BytesStart::attributes"
+    direct = {b.name for b in lib.real_bodies() if any(cname(c.node) == ATTR for c in b.calls())}
+    cands = []
+    for b in lib.real_bodies():
+        if b.kind == "closure" or not (lib.reachable_from([b.name]) & direct):
+            continue
+        nb = normal_form(lib, b, also=lambda cb, t: cb.name not in decoders(lib))
+        if any(cname(c.node) == ATTR for c in nb.calls()):
+            cands.append((b, nb))
+    if len(cands) > 1:
+        called = set()
+        for b, _ in cands:
+            called |= lib.reachable_from([b.name]) - {b.name}
+        cands = [(b, nb) for b, nb in cands if not (b.name in called and not lib.fns.get(b.name, {}).get("pub"))]
+    return [nb for _, nb in cands]
 
 
 def _is_pure_helper(lib, path):
@@ -483,12 +506,49 @@ def _is_contains_false(b, edge, contains_calls):
     return false_edge != neg
 
 
+BYTES_PRESERVING = mir.VALUE_PRESERVING + (
+    "alloc::slice::to_vec", "core::slice::to_vec", "std::slice::to_vec", "alloc::slice::<impl [T]>::to_vec", "std::vec::Vec::to_vec",
+    "quick_xml::name::QName::into_inner", "quick_xml::name::QName::as_ref", "std::borrow::Cow::into_owned", "std::borrow::Cow::to_vec",
+    "alloc::slice::into_vec", "std::slice::into_vec", "std::string::String::from", "std::vec::Vec::from")
+
+
+def decoders(lib):
+    """crate functions (one non-Element parameter) -> Result<String, _> built on the strict String::from_utf8 (directly
+    or through a private helper); the C08 rules check their bodies, the mechanism rules treat a call as `the text of
+    the argument`"""
+    if getattr(lib, "_decoders", None) is None:
+        from .common import look_through_private
+        out = set()
+        for p, f in lib.fns.items():
+            o = f.get("output") or {}
+            if o.get("adt") == "std::result::Result" and o.get("s", "").startswith("std::result::Result<std::string::String,") and \
+                    len(f.get("inputs", [])) == 1 and f["inputs"][0].get("adt") != "element::Element" and p in lib.bodies:
+                b = look_through_private(lib, lib.bodies[p])
+                if any(cname(c.node) in ("std::string::String::from_utf8", "core::str::from_utf8", "std::str::from_utf8") for c in b.calls()):
+                    out.add(p)
+        lib._decoders = out
+    return lib._decoders
+
+
+def decoded_source(b, t):
+    """if t is exactly `decode(X)?` (a decoder call or String::from_utf8 with a mapped error, through value-preserving
+    conversions only) return the stripped term X, else None"""
+    t = strip(mir.canon_try(strip(t, mir.VALUE_PRESERVING)), mir.VALUE_PRESERVING)
+    if t[0] == "proj" and tuple(e[:2] for e in t[2] if e != "*") == (("dc", "Ok"), ("f", "std::result::Result")):
+        x = strip(t[1], mir.VALUE_PRESERVING)
+    else:
+        return None
+    if x[0] == "call" and x[1] in ("std::string::String::from_utf8",):
+        return strip(x[2][0], BYTES_PRESERVING)
+    if x[0] == "call" and x[1] in decoders(b.crate) and len(x[2]) == 1:
+        return strip(x[2][0], BYTES_PRESERVING)
+    return None
+
+
 def _is_tag_name(b, t, event_arg):
-    """t == to_str(event.name()) (through `?`)"""
-    for st in mir.subterms(t):
-        if st[0] == "call" and st[1] == "quick_xml::events::BytesStart::name" and _root_is_arg(strip(st[2][0]), event_arg):
-            return True
-    return False
+    """t == decode(event.name())? exactly (no other transformation of the name)"""
+    src = decoded_source(b, t)
+    return src is not None and src[0] == "call" and src[1] == "quick_xml::events::BytesStart::name" and _root_is_arg(strip(src[2][0]), event_arg)
 
 
 def pm6_multiple(r, R):
@@ -615,16 +675,41 @@ def _contains_truth(b, edge):
 
 
 def _name_var(tp, t, R):
-    """argument is the `name` variable = to_str(event.name())?"""
+    """argument is the `name` variable = decode(event.name())? exactly"""
     t = strip(t, mir.VALUE_PRESERVING)
     if t[0] == "local":
-        for d in tp.defs().get(t[1], []):
-            if d.si is not None and d.node["k"] == "assign" and d.node["rv"]["k"] == "use":
-                org = tp.origins(d.node["rv"]["op"], transparent=lambda x: True)
-                # derives from the event parameter only
-                if any(o[0] == "arg" and o[1] == R.tp_param["event"] for o in org):
-                    return True
+        ds = [d for d in tp.defs().get(t[1], [])]
+        if ds and all(d.si is not None and d.node["k"] == "assign" and not d.node["place"]["p"] and d.node["rv"]["k"] == "use" and
+                      _is_tag_name(tp, term_of(tp, d.node["rv"]["op"]), R.tp_param["event"]) for d in ds):
+            return True
     return _is_tag_name(tp, t, R.tp_param["event"])
+
+
+def _attr_source_exact(tp, t, event_arg, depth=0):
+    """t (the receiver of the attribute loop's next) is event.attributes() itself: no adapter in between"""
+    t = strip(t)
+    if t[0] == "call" and t[1] == "std::iter::IntoIterator::into_iter" and t[2]:
+        return _attr_source_exact(tp, t[2][0], event_arg, depth + 1)
+    if t[0] == "call" and t[1] == "quick_xml::events::BytesStart::attributes":
+        return _root_is_arg(strip(t[2][0]), event_arg)
+    if t[0] == "local" and depth < 4:
+        ds = tp.defs().get(t[1], [])
+        return bool(ds) and all(d.si is not None and d.node["k"] == "assign" and not d.node["place"]["p"] and d.node["rv"]["k"] == "use" and
+                                _attr_source_exact(tp, term_of(tp, d.node["rv"]["op"]), event_arg, depth + 1) for d in ds)
+    return False
+
+
+def _attr_key_exact(tp, t, n):
+    """t == decode(item.key)? where item is the Ok payload of the attribute iterator's next call n"""
+    src = decoded_source(tp, t)
+    if src is None:
+        return False
+    src = mir.canon_try(src)
+    if src[0] != "proj":
+        return False
+    base = strip(src[1])
+    path = [e[1] if e[0] == "dc" else e[-1] for e in src[2] if e != "*"]
+    return base[0] == "call" and len(base) > 3 and base[3] == n and path == ["Some", "0", "Ok", "0", "key"]
 
 
 # --------------------------------------------------------------------------
@@ -1147,8 +1232,7 @@ def pm12_attributes(r, R):
         n = nx[0]
         lp = find_loop_of(tp, n.bb)
         src = strip(term_of(tp, n.node["args"][0]))
-        src_ok = any(st[0] == "call" and st[1] == "quick_xml::events::BytesStart::attributes" and _root_is_arg(strip(st[2][0]), R.tp_param["event"]) for st in mir.subterms(src)) or \
-            _local_from_attributes(tp, src, R.tp_param["event"])
+        src_ok = _attr_source_exact(tp, src, R.tp_param["event"])
         pushes = [c for c in tp.calls() if cname(c.node) == "std::vec::Vec::push" and c.bb in lp[1]]
         okp = len(pushes) == 1
         why = "%d push(es) in the attribute loop" % len(pushes)
@@ -1162,24 +1246,40 @@ def pm12_attributes(r, R):
             if val[0] == "agg" and val[1] == "necessity::Necessity":
                 tag = val[2]
                 inner = strip(list(val[3].values())[0], mir.VALUE_PRESERVING)
-            key_ok = any(st[0] == "proj" and any(e != "*" and e[0] == "f" and e[3] == "key" for e in st[2]) and st[1][0] == "call" and st[1][3] == n for st in mir.subterms(inner)) or \
-                ("call", n) in tp.origins(c.node["args"][1], transparent=lambda t: t is not n.node)
+            key_ok = _attr_key_exact(tp, inner, n)
             want_tag = "Mandatory" if path == "existing" else None
             okp = not g and key_ok and tag == want_tag and src_ok
             vec_local = _root_local_of(tp, term_of(tp, c.node["args"][0]))
             why = "every Ok(attribute) of this tag pushes its key%s" % (" as Mandatory" if want_tag else "") if okp else \
                 "attribute push: extra guards=%s key derives from the item=%s tag=%s iterates this tag's attributes=%s" % ([guard_s(x) for x in g], key_ok, tag, src_ok)
-        ob(r, "PM12.attribute-collected", P, "%s: %s-child path" % (tp.name, path), okp, why, pushes[0] if pushes else n, "PM12|push|%s" % path)
+        ob(r, "PM12.attribute-collected", P + ("C06",), "%s: %s-child path" % (tp.name, path), okp, why, pushes[0] if pushes else n, "PM12|push|%s" % path)
+        # the collected list reaches its consumer as collected: nothing but the loop's push ever takes it by unique reference
+        if vec_local is not None and pushes:
+            touch = []
+            for c in tp.calls():
+                if c == pushes[0]:
+                    continue
+                for a in c.node["args"]:
+                    pa = mir.op_place(a)
+                    if pa is not None and arg_ty(tp, a).get("s", "").startswith("&mut ") and tp.through_ref(pa)["l"] == vec_local:
+                        touch.append(c)
+            okt = not touch
+            ob(r, "PM12.collected-list-untouched", P + ("C09", "C06"), "%s: %s-child path" % (tp.name, path), okt,
+               "the collected attribute list is only appended to by the loop (document order, nothing removed)" if okt else
+               "the collected attribute list is also modified by %s before it is used" % sorted({cname(c.node) for c in touch}), touch[0] if touch else pushes[0],
+               "PM12|untouched|%s" % path)
         # consumer
         if path == "existing":
             m = [c for c in tp.calls() if cname(c.node).endswith("Element::merge_attr") and c.bb in blocks]
             ok = len(m) == 1 and _root_local_of(tp, term_of(tp, m[0].node["args"][1])) == vec_local and _is_removed_child(tp, R, m[0].node["args"][0])
-            ob(r, "PM12.attributes-merged", P + ("C06",), "%s: existing-child path" % tp.name, ok, "the collected list is merged into the removed child's attributes" if ok else
-               "merge_attr is not applied to (removed child, collected attributes)", m[0] if m else n, "PM12|merge")
+            gm = [guard_s(x) for x in guards_of(tp, m[0].bb, within=blocks)] if len(m) == 1 else []
+            ok = ok and not gm
+            ob(r, "PM12.attributes-merged", P + ("C06",), "%s: existing-child path" % tp.name, ok, "the collected list is always merged into the removed child's attributes" if ok else
+               "merge_attr is not applied unconditionally to (removed child, collected attributes)%s" % (" - it depends on %s" % gm if gm else ""), m[0] if m else n, "PM12|merge")
         else:
             m = [c for c in tp.calls() if cname(c.node).endswith("Element::new") and c.bb in blocks]
             ok = len(m) == 1 and _root_local_of(tp, term_of(tp, m[0].node["args"][1])) == vec_local and \
-                _name_var(tp, term_of(tp, m[0].node["args"][0]), R)
+                _name_var(tp, term_of(tp, m[0].node["args"][0]), R) and not guards_of(tp, m[0].bb, within=blocks)
             ob(r, "PM12.new-child-constructed", P, "%s: new-child path" % tp.name, ok, "a new child is constructed from (tag name, collected attribute keys)" if ok else
                "Element::new is not applied to (tag name, collected attributes)", m[0] if m else n, "PM12|new")
 
@@ -1512,19 +1612,42 @@ def pm16_tree_to_fields(r, R):
     ob(r, "PM16.text-field-iff-text", P, b.name, len(fe) == 1 and not other, "a text field is emitted exactly when self.text is present" if len(fe) == 1 and not other else
        "text-group field emissions: %d inside, %d outside the is_some() region" % (len(fe), len(other)), tx["site"], "PM16|text")
     # String typing of text-only children: decided by contains_only_text(child)
-    cot = [bd for bd in R.lib.real_bodies() if bd.name.endswith("contains_only_text")]
-    if cot:
+    # the predicate is found by role: the crate function of the loop child that decides whether the child's own structs are rendered
+    cot = []
+    rec = [e for e in Rn.emissions if e.kind == "child-structs" and e.site.bb in Rn.child_loop["blocks"]]
+    for e in rec:
+        # the recursive call producing the appended text is the guarded site
+        site_bb = e.value[3].bb if e.value[0] == "call" and len(e.value) > 3 else e.site.bb
+        for g in guards_of(b, site_bb, within=Rn.child_loop["blocks"]):
+            t = None
+            if g[0] == "call":
+                t = ("call", g[1], g[2]) + ((g[4],) if len(g) > 4 else ())
+            elif g[0] == "flag":
+                t = strip(term_of(b, {"l": g[1], "p": []}))
+            if t is not None and t[0] == "call" and len(t) > 3:
+                cb = R.lib.bodies.get(t[3].node["callee"].get("path"))
+                if cb is not None and R.lib.fns.get(cb.name, {}).get("output", {}).get("prim") == "bool" and cb not in cot:
+                    cot.append(cb)
+    ob(r, "PM16.string-typing-predicate", P, b.name, len(cot) == 1, "whether a child gets its own struct is decided by %s(child)" % cot[0].name if len(cot) == 1 else
+       "expected one crate predicate guarding the rendering of a child's own structs, found %s" % [c.name for c in cot], rec[0].site if rec else mir.line_of(b.span), "PM16|string-pred")
+    if len(cot) == 1:
         c = cot[0]
-        reads = set()
-        for s in c.sites():
-            for p in mir.site_reads(s):
-                for (adt, f) in mir.place_fields(c.canon(p)):
-                    if adt == "element::Element":
-                        reads.add(f)
-        calls = sorted({cname(x.node).split("::")[-1] for x in c.calls()})
-        ok = reads == {"text", "attributes", "children"} and set(calls) <= {"is_some", "is_empty"}
+        from .common import is_conjunction_of
+
+        def atom_of(t):
+            m = t[1].rsplit("::", 1)[-1]
+            a = strip(t[2][0]) if t[2] else ("x",)
+            fs = [e[3] for e in a[2] if e != "*" and e[0] == "f"] if a[0] == "proj" and a[1] == ("arg", 1) else None
+            if not fs or len(fs) != 1:
+                return None
+            if m in ("is_some", "is_empty"):
+                return ("%s.%s" % (fs[0], m), True)
+            if m == "is_none":
+                return ("%s.is_some" % fs[0], False)
+            return None
+        ok, why = is_conjunction_of(c, atom_of, ("text.is_some", "attributes.is_empty", "children.is_empty"))
         ob(r, "PM16.string-typing-condition", P, c.name, ok, "an element is typed String exactly when text.is_some() && attributes.is_empty() && children.is_empty()" if ok else
-           "contains_only_text reads %s via %s" % (sorted(reads), calls), mir.line_of(c.span), "PM16|string")
+           "contains_only_text is not that conjunction: %s" % why, mir.line_of(c.span), "PM16|string")
 
 
 def run_all(ctx):
